@@ -130,6 +130,8 @@ class WProgram(P.Program):
     def prql(self, header=None):
         # steps with empty PRQL text are the model-side halves of one PRQL construct (e.g. the filter of
         # `filter (sum b) > 1` = window column, then filter on it)
+        if all(s.prql for s in self.steps):
+            return super().prql(header)
         lines = (["prql target:%s" % header] if header else []) + ["from t"] + [s.prql for s in self.steps if s.prql]
         return "\n".join(lines)
 
@@ -138,12 +140,16 @@ def xstep(kind, prql, coq, **info):
     return P.Step(kind, prql, coq, x=True, **info)
 
 
+_run_model_expr = R.model_expr
+
+
 def model_expr(program, inst):
-    base = P.coq_rel("t", inst["t"], "(Some %d%%N)" % P.nid("t"))
-    pg = program.coq().replace("U_TABLE", P.coq_rel("u", inst["u"], "None")).replace("T_TABLE", P.coq_rel("t", inst["t"], "None"))
+    """run.py's own term (base relation, U_TABLE / U_COLS / L_COLS placeholders) evaluated by `runx` instead of `run`"""
     if not isinstance(program, WProgram):
-        pg = "(map XT %s)" % pg
-    return "(let r := runx %s %s in (show r, names r))" % (base, pg)
+        program = WProgram(program.steps, program.ordered, program.final_cols, program.meta)
+    txt = _run_model_expr(program, inst)
+    assert txt.startswith("(let r := run ")
+    return "(let r := runx " + txt[len("(let r := run "):]
 
 
 @contextlib.contextmanager
@@ -171,14 +177,17 @@ def run_cases(cases, targets=("sql.sqlite", "sql.generic")):
 # ------------------------------------------------------------------ instances
 def gen_instance(rng, min_rows=4, max_rows=7):
     """t: id unique non-null with gaps, shuffled insertion order; a, b nullable with duplicates;
-    c non-null with duplicates and gaps (the key of range frames and of tie mode); g in {NULL,1,2}."""
+    c non-null with duplicates and gaps (the key of range frames and of tie mode); g in {NULL,1,2}.
+    u(id, a, d, g): id unique, overlapping t's ids partly (1:1 joins on id keep t's unique key)."""
     n = rng.randint(min_rows, max_rows)
     ids = rng.sample(range(1, 10), n)
     rows = []
     for i in ids:
         rows.append([i, rng.choice([None, 0, 1, 2, 3, -1, 2]), rng.choice([None, 0, 1, 2, 3, -1, 5]), rng.choice([0, 1, 1, 2, 3, 5]),
                      rng.choice([None, 1, 1, 2, 2])])
-    return {"t": rows, "u": []}
+    uids = rng.sample(range(1, 10), rng.randint(3, 7))
+    urows = [[i, rng.choice([None, 0, 1, 2, 3]), rng.choice([None, 0, 1, 2, 3, -1, 5]), rng.choice([None, 1, 2])] for i in uids]
+    return {"t": rows, "u": urows}
 
 
 # ------------------------------------------------------------------ directed cases
@@ -191,7 +200,7 @@ SORTS = {
 }
 UNIQUE = {"id", "-id", "c,id", "-c,id", "a,-id"}
 PLACEMENTS = ["derive", "select", "filter", "sort", "sortdirect"]
-PRES = ["none", "filter", "take", "groupagg"]
+PRES = ["none", "filter", "take", "groupagg", "join"]
 POSTS = ["none", "filter", "take", "aggregate", "groupagg", "derive", "window2"]
 
 
@@ -204,11 +213,12 @@ def range_ok(sort):
 
 
 class Case:
-    def __init__(self, part, sort, frame, fns, placement="derive", pre="none", post="none", thr=1, paren=True):
+    def __init__(self, part, sort, frame, fns, placement="derive", pre="none", post="none", thr=1, paren=True, side="Inner"):
         self.part, self.sort, self.frame, self.fns, self.placement, self.pre, self.post, self.thr, self.paren = part, sort, frame, fns, placement, pre, post, thr, paren
+        self.side = side          # pre == "join": Inner | LeftJ
 
     def key(self):
-        return repr((self.part, self.sort, self.frame, self.fns, self.placement, self.pre, self.post, self.thr))
+        return repr((self.part, self.sort, self.frame, self.fns, self.placement, self.pre, self.post, self.thr, self.side))
 
     @property
     def unique(self):
@@ -251,6 +261,10 @@ def valid(case):
         return False
     if case.pre == "groupagg" and "a" in case.sort:
         return False
+    if case.pre == "join":
+        # sort | join (1:1 on the unique key id) | window: the window's order is the LEFT input's sort, carried through the join
+        if case.part is not None or not case.unique or case.placement == "sortdirect" or case.post in ("groupagg", "window2"):
+            return False
     return True
 
 
@@ -260,7 +274,16 @@ def build(case):
         return None
     steps = []
     avail = ["id", "a", "b", "c", "g"]
-    col = lambda c: ("col", None, c)
+    joined = case.pre == "join"
+    qual = [joined]     # a `select` of the joined relation yields plain column names again
+
+    def col(c):
+        # after a join the base columns are qualified (t.x; u.d), derived columns are not
+        if qual[0] and c in ("id", "a", "b", "c", "g"):
+            return ("col", "t", c)
+        if qual[0] and c == "d":
+            return ("col", "u", "d")
+        return ("col", None, c)
     # ---- context before the window (a split: the window sees the result of an earlier SELECT)
     if case.pre == "filter":
         e = ("bin", "Ne", col("b"), ("lit", 1))
@@ -275,11 +298,21 @@ def build(case):
                                 P.coq_names(["g", "c"]), P.nid("b"), P.coq_expr(col("b")), P.nid("id"), P.coq_expr(col("id")))))
         avail = ["g", "c", "b", "id"]
     keys = keys_of(case.sort)
+    fns = case.fns
+    if joined:
+        # the sort comes BEFORE the join; nothing re-sorts after it
+        steps.append(P.Step("sort", "sort %s" % P.prql_keys(keys), "TSort %s" % P.coq_keys(keys)))
+        on = ("bin", "Eq", ("col", "t", "id"), ("col", "u", "id"))
+        steps.append(P.Step("join", "join %su (%s)" % ("side:left " if case.side == "LeftJ" else "", P.prql_expr(on)),
+                            "TJoin %s %d%%N U_COLS U_TABLE %s" % (case.side, P.nid("u"), P.coq_expr(on)), side=case.side, one_to_one=True))
+        keys = [(d, col(e[2])) for d, e in keys]
+        fns = tuple((f, k, (("col", "u", "d") if a[2] == "a" else col(a[2])) if a[0] == "col" else a) for f, k, a in fns)
+        avail = avail + ["d"]
     okeys = P.coq_keys(keys)
     ftxt = frame_prql(case.frame, case.paren)
     fcoq = frame_coq(case.frame)
     wnames, items, citems, wmeta = [], [], [], {}
-    for i, (f, k, arg) in enumerate(case.fns):
+    for i, (f, k, arg) in enumerate(fns):
         nm = "x%d" % (i + 1)
         wnames.append(nm)
         items.append("%s = %s" % (nm, fn_prql(f, k, arg)))
@@ -288,7 +321,7 @@ def build(case):
                      "empty": empty_range(case.frame) and f in FRAME_SENSITIVE}
     by = [case.part] if case.part else []
     if case.unique:
-        keep = [c for c in ("id", "g", "c", "b") if c in avail]
+        keep = [c for c in ("id", "g", "c", "b", "d") if c in avail]
     else:
         keep = by + [c for _, c in SORTS[case.sort] if c not in by]
     pl = case.placement
@@ -298,11 +331,11 @@ def build(case):
         post_model = []
         outcols = keep + wnames
     elif pl == "select":
-        body = "select {%s}" % ", ".join([c for c in keep if c not in by] + items)
+        body = "select {%s}" % ", ".join([P.prql_expr(col(c)) for c in keep if c not in by] + items)
         post_model = [P.Step("select", "", "TSelect [%s]" % "; ".join(["(None, %s)" % P.coq_expr(col(c)) for c in keep] + ["(None, %s)" % P.coq_expr(col(n)) for n in wnames]), implicit=True)]
         outcols = keep + wnames
     elif pl == "filter":
-        f, k, arg = case.fns[0]
+        f, k, arg = fns[0]
         body = "filter (%s) > %d" % (fn_prql(f, k, arg), thr)
         citems = citems[:1]
         cond = ("bin", "Gt", col("x1"), ("lit", thr))
@@ -311,7 +344,7 @@ def build(case):
         wmeta = {"x1": wmeta["x1"]}
         wmeta["x1"]["consumed"] = True
     elif pl == "sortdirect":
-        f, k, arg = case.fns[0]
+        f, k, arg = fns[0]
         dkeys = "{(%s), id}" % fn_prql(f, k, arg)
         citems = citems[:1]
         wmeta = {"x1": dict(wmeta["x1"], consumed=True, sortdirect=True)}
@@ -320,7 +353,7 @@ def build(case):
     else:
         raise ValueError(pl)
     wcoq = "[%s]" % "; ".join(citems)
-    info = {"fns": [f for f, _, _ in case.fns], "frame": case.frame, "part": case.part, "sort": case.sort, "placement": pl}
+    info = {"fns": [f for f, _, _ in fns], "frame": case.frame, "part": case.part, "sort": case.sort, "placement": pl}
     if pl == "sortdirect":
         # `sort {(f e), id}` while the sort `keys` is in effect: the documented meaning is f over the whole
         # table in the current order, then a sort by that value
@@ -332,7 +365,7 @@ def build(case):
         steps.append(P.Step("sort", "", "TSort %s" % P.coq_keys(sk), implicit=True))
         steps.append(P.Step("take", "take 3", "TTake None (Some (3))", rng=(None, 3)))
     elif case.part is None:
-        if keys:
+        if keys and not joined:
             steps.append(P.Step("sort", "sort %s" % P.prql_keys(keys), "TSort %s" % okeys))
         w = "window %s (%s)" % (ftxt, body) if ftxt else body
         steps.append(xstep("win", w, "XWinF %s %s %s" % (fcoq, okeys, wcoq), **info))
@@ -340,6 +373,8 @@ def build(case):
         inner = ("sort %s | " % P.prql_keys(keys) if keys else "") + ("window %s (%s)" % (ftxt, body) if ftxt else body)
         steps.append(xstep("group_win", "group {%s} (%s)" % (case.part, inner), "XGroupWinF %s %s %s %s" % (P.coq_names(by), fcoq, okeys, wcoq), **info))
     steps += post_model
+    if pl == "select":
+        qual[0] = False
     if pl == "sort":
         sk = [(False, col("x1")), (False, col("id"))]
         steps.append(P.Step("sort", "sort %s" % P.prql_keys(sk), "TSort %s" % P.coq_keys(sk)))
@@ -400,7 +435,7 @@ def build(case):
             if c not in seen:
                 seen.add(c)
                 fc.append(c)
-        steps.append(P.Step("select", "select {%s}" % ", ".join(fc), "TSelect [%s]" % "; ".join("(None, %s)" % P.coq_expr(col(c)) for c in fc), final=True))
+        steps.append(P.Step("select", "select {%s}" % ", ".join(P.prql_expr(col(c)) for c in fc), "TSelect [%s]" % "; ".join("(None, %s)" % P.coq_expr(col(c)) for c in fc), final=True))
     else:
         fc = None
     pg = WProgram(steps, False, fc, {"case": case, "wcols": wmeta})
@@ -476,7 +511,9 @@ class WinGen(P.Gen):
 
     def t_win(self, st):
         r = self.r
-        if st["order"] is None or st["joined"] or st["uniq"] is None or st.get("uniq_dropped") or not self._keys_visible(st):
+        # after a 1:1 join on the unique key the left input's sort (requalified by prog.Gen.t_join) is still in
+        # effect and still ends in a unique key: window functions there take their order from the carried sort
+        if st["order"] is None or st.get("outer_right") or st["uniq"] is None or st.get("uniq_dropped") or not self._keys_visible(st):
             return None
         single = st["order"] == [(False, ("col", None, "id"))]
         fr = self._frame(single)
